@@ -123,7 +123,8 @@ def run_unit(u, rec):
                         g = g[list(perm)]
                     return sign * g
 
-                for si, s in enumerate(smooth):
+                # on odd grids there is no Nyquist mode: the white-noise-like state (content up to the highest mode of every axis) must commute as well
+                for si, s in enumerate(smooth + ([pat] if N % 2 == 1 else [])):
                     a = np.asarray(st(jnp.asarray(P(s))))
                     b = P(np.asarray(st(jnp.asarray(s))))
                     scale = max(1.0, float(np.max(np.abs(b))))
@@ -134,7 +135,8 @@ def run_unit(u, rec):
         if D >= 2 and embeddable(e):
             st1 = e.build(ex, jnp, 1, N, L, dt, order)
             C1 = e.channels(1)
-            for s1 in catalog.smooth_states(1, N, C1, u["seed"] + 3, count=u["nstates"], amp=e.amp):
+            pat1 = (np.mod(np.arange(C1 * N) * 7 + (np.arange(C1 * N) // 3) * 5 + u["seed"], 3) - 1.0).reshape((C1, N)) * 0.4
+            for s1 in catalog.smooth_states(1, N, C1, u["seed"] + 3, count=u["nstates"], amp=e.amp) + ([pat1] if N % 2 == 1 else []):
                 want1 = np.asarray(st1(jnp.asarray(s1)))
                 for axis in range(D):
                     shape = [1] * D
